@@ -34,6 +34,12 @@ struct St {
     other_cause_before_peer_rst: bool,
     open_ops: BTreeMap<u32, (u64, Op)>,
     e_read_es: bool,
+    /// E wrote a frame carrying END_STREAM for the stream at this time
+    es_written: Option<u64>,
+    /// DATA / HEADERS frames of the stream written by E after the application's send_reset
+    frames_after_user_reset: u32,
+    /// E has written HEADERS for the stream (a stream E initiates exists for the peer only from then on)
+    e_wrote_headers: bool,
 }
 
 pub fn check_endpoint(v: &View, e: Side, quiescent: bool, viol: &mut Vec<Violation>, stats: &mut Stats) {
@@ -45,6 +51,7 @@ pub fn check_endpoint(v: &View, e: Side, quiescent: bool, viol: &mut Vec<Violati
     let mut conn_failed_at: Option<u64> = None; // E wrote an error GOAWAY, saw a fault, or its connection future ended with an error
     let mut peer_goaway: Option<(u64, u32, u32)> = None; // (t, last, code)
     let mut seen_rules: std::collections::BTreeSet<String> = Default::default();
+    let mut last_write_t: u64 = 0;
     let mut fail = |viol: &mut Vec<Violation>, rule: String, detail: String| {
         if seen_rules.insert(rule.clone()) {
             viol.push(Violation::new("C17", rule, detail));
@@ -69,6 +76,19 @@ pub fn check_endpoint(v: &View, e: Side, quiescent: bool, viol: &mut Vec<Violati
             }
             EvK::W { dir, idx } if *dir == ed => {
                 let f = v.frame(*dir, *idx);
+                last_write_t = ev.t;
+                if f.sid != 0 {
+                    let s = st.entry(f.sid).or_default();
+                    if f.end_stream() {
+                        s.es_written.get_or_insert(ev.t);
+                    }
+                    if matches!(f.body, Body::Headers { .. }) {
+                        s.e_wrote_headers = true;
+                    }
+                    if matches!(f.body, Body::Data { .. } | Body::Headers { .. }) && s.user_reset.map(|(tu, _)| tu < ev.t).unwrap_or(false) {
+                        s.frames_after_user_reset += 1;
+                    }
+                }
                 match &f.body {
                     Body::Rst { code } => {
                         let s = st.entry(f.sid).or_default();
@@ -183,6 +203,33 @@ pub fn check_endpoint(v: &View, e: Side, quiescent: bool, viol: &mut Vec<Violati
                 }
             }
             _ => {}
+        }
+    }
+    // a reset the application asked for while part of the stream was still unsent must reach the wire
+    if quiescent && conn_failed_at.is_none() {
+        for (sid, s) in &st {
+            if let Some((tu, code)) = s.user_reset {
+                let finished_before = s.es_written.map(|t| t < tu).unwrap_or(false);
+                // (a peer reset read while ours was still waiting to be written supersedes it: no RST_STREAM in
+                // response to RST_STREAM)
+                let peer_first = s.peer_rst.is_some();
+                let goaway_cut = peer_goaway.map(|(tg, last, _)| tg < tu && *sid > last).unwrap_or(false);
+                // a stream E initiates that never got onto the wire (waiting for a concurrency slot until a GOAWAY or
+                // the end of the connection) has nothing to reset there
+                let local = (*sid % 2 == 1) != e_is_server;
+                let on_wire = !local || s.e_wrote_headers;
+                if !finished_before && !peer_first && !goaway_cut && on_wire {
+                    // (the connection must still have been writing after the call: an endpoint whose connection has
+                    // closed in the meantime - idle client, GOAWAY + EOF - has nowhere to send the reset)
+                    if last_write_t <= tu {
+                        continue;
+                    }
+                    stats.inc("c17.user_resets_due_on_wire");
+                    if s.e_rst.is_empty() {
+                        fail(viol, "user-reset-never-sent".into(), format!("{}: send_reset({}) on stream {} at t={} while the stream's END_STREAM had not been written (written: {:?}); at quiescence no RST_STREAM for it is on the wire and {} of its DATA/HEADERS frames were written after the call", e.name(), code, sid, tu, s.es_written, s.frames_after_user_reset));
+                    }
+                }
+            }
         }
     }
     // a peer reset that E has read must reach every waiting handle of the stream
